@@ -17,6 +17,7 @@ from exabgp.bgp.message.notification import Notify
 
 from exabgp.util import hexstring
 from exabgp.util.types import Buffer
+from exabgp.util.jsonmembers import join_members
 
 # =====================================================================
 # draft-ietf-idr-bgp-prefix-sid
@@ -81,7 +82,7 @@ class PrefixSid(Attribute):
         return cls(sr_attrs=sr_attrs, packed=original)
 
     def json(self, compact: bool | None = None) -> str:
-        content: str = ', '.join(d.json() for d in self.sr_attrs)
+        content: str = join_members(d.json() for d in self.sr_attrs)
         return f'{{ {content} }}'
 
     def __str__(self) -> str:
